@@ -109,7 +109,7 @@ static std::vector<std::string> sweep(const std::string& which, const std::vecto
             ::close(fd[0]);
             FILE* o = fdopen(fd[1], "w");
             for (size_t n = next; n <= hi; n++) {
-                alarm(10);
+                alarm(60);
                 write_file(path, bytes.data(), n);
                 std::string st = call_reader(which, path);
                 fprintf(o, "%zu\t%s\n", n, st.c_str());
@@ -300,7 +300,7 @@ int main(int argc, char** argv) {
         std::string r = in_child([&](FILE* o2) {
             lib.write_oas(path.c_str(), 0, (uint8_t)(f % 2 ? 6 : 0), flags);
             fprintf(o2, "done");
-        }, 20);
+        }, 60);
         lib.free_all();
         if (r != "done") continue;  // writer problems belong to C02
         std::vector<uint8_t> bytes = read_file(path);
